@@ -455,7 +455,8 @@ pub fn c15(tier: &str, seed: u64) -> Check {
         &["'all u64 seeds' is decided only on the enumerated seeds; next_f64 ∈ [0,1) for every seed follows from the 52-bit mantissa construction, an arithmetic argument outside this technique", "outputs for 0 < p < 1 are not compared across representations or worker counts (allowed to differ)"],
         json!({"max_order": if thorough {20} else {8}, "seeds": if thorough {1024} else {70}}),
     );
-    Check { spaces, report, post: None }
+    let tier2 = tier.to_string();
+    Check { spaces, report, post: Some(Box::new(move |ctx| crate::props::conf::run_sched("C15", &tier2, ctx))) }
 }
 
 // ------------------------------------------------------------------ C16
